@@ -23,10 +23,16 @@ def opReturnFree (scr : Bytes) : Bool := noRet scr.length scr
 /-- the script that P2SH sigop counting looks into: data of the last push of a push-only scriptSig -/
 def redeemOf (scriptSig : Bytes) : Bytes := (lastPush scriptSig.length scriptSig []).getD []
 
-/-- every script of the transaction that any sigop counter reads is free of OP_RETURN -/
-def txRetFree (tx : Tx) : Bool :=
-  tx.ins.all (fun i => opReturnFree i.scriptSig && opReturnFree (redeemOf i.scriptSig) && opReturnFree (i.witness.getLastD []))
-  && tx.outs.all (fun o => opReturnFree o.script)
+/-- gocoin's counter and the consensus counter agree on this script (both accuracy modes).  This is exactly what known
+    finding F3d is NOT about; `countsAgree_of_opReturnFree` gives the syntactic sufficient condition. -/
+def countsAgree (scr : Bytes) : Bool :=
+  (getSigOpCount scr true == Spec.Connect.sigOpCount scr true) && (getSigOpCount scr false == Spec.Connect.sigOpCount scr false)
+
+/-- on every script of the transaction that a sigop counter reads (scriptSigs, redeem scripts, last witness items,
+    output scripts) gocoin's count is the consensus count -/
+def txCountsAgree (tx : Tx) : Bool :=
+  tx.ins.all (fun i => countsAgree i.scriptSig && countsAgree (redeemOf i.scriptSig) && countsAgree (i.witness.getLastD []))
+  && tx.outs.all (fun o => countsAgree o.script)
 
 theorem sigOpLoop_eq (acc : Bool) (fuel : Nat) (scr : Bytes) (last n : Nat) (h : noRet fuel scr = true) :
     sigOpLoop acc fuel scr last n = Spec.Connect.sigOpLoop acc fuel scr last n := by
@@ -54,9 +60,19 @@ theorem sigOpLoop_eq (acc : Bool) (fuel : Nat) (scr : Bytes) (last n : Nat) (h :
         · simp only [hd last hl, MAX_PUBKEYS_PER_MULTISIG]
         · simp only [hl, false_and, and_false, MAX_PUBKEYS_PER_MULTISIG, ↓reduceIte]
 
-theorem getSigOpCount_eq (scr : Bytes) (acc : Bool) (h : opReturnFree scr = true) :
-    getSigOpCount scr acc = Spec.Connect.sigOpCount scr acc :=
-  sigOpLoop_eq acc _ scr _ _ h
+theorem countsAgree_of_opReturnFree (scr : Bytes) (h : opReturnFree scr = true) : countsAgree scr = true := by
+  unfold countsAgree
+  have h1 : getSigOpCount scr true = Spec.Connect.sigOpCount scr true := sigOpLoop_eq true _ scr _ _ h
+  have h2 : getSigOpCount scr false = Spec.Connect.sigOpCount scr false := sigOpLoop_eq false _ scr _ _ h
+  simp [h1, h2]
+
+theorem getSigOpCount_eq (scr : Bytes) (acc : Bool) (h : countsAgree scr = true) :
+    getSigOpCount scr acc = Spec.Connect.sigOpCount scr acc := by
+  unfold countsAgree at h
+  simp only [Bool.and_eq_true, beq_iff_eq] at h
+  cases acc
+  · exact h.2
+  · exact h.1
 
 theorem lastPush_eq (fuel : Nat) (scr d : Bytes) : lastPush fuel scr d = Spec.Connect.lastPushOnly fuel scr d := by
   induction fuel generalizing scr d with
@@ -72,7 +88,7 @@ theorem lastPush_eq (fuel : Nat) (scr d : Bytes) : lastPush fuel scr d = Spec.Co
         obtain ⟨opcode, d', le⟩ := r
         simp only [ih]
 
-theorem p2sh_eq (scriptSig : Bytes) (h : opReturnFree (redeemOf scriptSig) = true) :
+theorem p2sh_eq (scriptSig : Bytes) (h : countsAgree (redeemOf scriptSig) = true) :
     getP2SHSigOpCount scriptSig = Spec.Connect.p2shSigOps scriptSig := by
   unfold getP2SHSigOpCount Spec.Connect.p2shSigOps
   rw [← lastPush_eq]
@@ -83,7 +99,7 @@ theorem p2sh_eq (scriptSig : Bytes) (h : opReturnFree (redeemOf scriptSig) = tru
     rw [hl] at h
     exact getSigOpCount_eq d true h
 
-theorem witProg_eq (v : Nat) (p : Bytes) (w : List Bytes) (h : opReturnFree (w.getLastD []) = true) :
+theorem witProg_eq (v : Nat) (p : Bytes) (w : List Bytes) (h : countsAgree (w.getLastD []) = true) :
     witnessSigOps v p w = Spec.Connect.witProgSigOps v p w := by
   unfold witnessSigOps Spec.Connect.witProgSigOps
   by_cases hv : v = 0
@@ -98,7 +114,7 @@ theorem witProg_eq (v : Nat) (p : Bytes) (w : List Bytes) (h : opReturnFree (w.g
       · simp [hv, h20, h32]
   · simp [hv]
 
-theorem countWitness_eq (inp : TxIn) (pk : Bytes) (h : opReturnFree (inp.witness.getLastD []) = true) :
+theorem countWitness_eq (inp : TxIn) (pk : Bytes) (h : countsAgree (inp.witness.getLastD []) = true) :
     countWitnessSigOps inp pk = Spec.Connect.witnessSigOps inp pk := by
   unfold countWitnessSigOps Spec.Connect.witnessSigOps isPushOnly
   rw [← lastPush_eq]
@@ -117,9 +133,9 @@ theorem countWitness_eq (inp : TxIn) (pk : Bytes) (h : opReturnFree (inp.witness
         | none => rfl
       · simp [hp]
 
-theorem legacy_eq (tx : Tx) (h : txRetFree tx = true) : legacySigOps tx = Spec.Connect.legacySigOps tx := by
+theorem legacy_eq (tx : Tx) (h : txCountsAgree tx = true) : legacySigOps tx = Spec.Connect.legacySigOps tx := by
   unfold legacySigOps Spec.Connect.legacySigOps
-  unfold txRetFree at h
+  unfold txCountsAgree at h
   simp only [Bool.and_eq_true, List.all_eq_true] at h
   congr 1
   · congr 1
